@@ -253,6 +253,7 @@ class UndirectedMultigraph : private LabeledUndirectedGraph<EdgeMultiplicity> {
                         totalEdgeNumber -= getEdgeLabel(i, *j, false);
                         --BaseClass::edgeNumber;
                     }
+                    BaseClass::edgeLabels.erase(orderedEdge(i, *j));
                     BaseClass::adjacencyList[i].erase(j++);
                 } else {
                     ++j;
